@@ -111,8 +111,17 @@ archive_read_disk_set_standard_lookup(struct archive *a)
 	gcache->archive = a;
 	gcache->size = name_cache_size;
 
-	archive_read_disk_set_gname_lookup(a, gcache, lookup_gname, cleanup);
-	archive_read_disk_set_uname_lookup(a, ucache, lookup_uname, cleanup);
+	if (archive_read_disk_set_gname_lookup(a, gcache, lookup_gname,
+	    cleanup) != ARCHIVE_OK) {
+		free(ucache);
+		free(gcache);
+		return (ARCHIVE_FATAL);
+	}
+	if (archive_read_disk_set_uname_lookup(a, ucache, lookup_uname,
+	    cleanup) != ARCHIVE_OK) {
+		free(ucache);
+		return (ARCHIVE_FATAL);
+	}
 
 	return (ARCHIVE_OK);
 }
